@@ -127,40 +127,15 @@ Section HalSingle.
   Qed.
 End HalSingle.
 
-(* cnv_pairwise_apply_dft: the trait documents (cnv_offset, res_size, ..) but the hal delegate forwards its first argument
-   as res_size and its second as cnv_offset (the in-tree hal tests call it as (res_size, cnv_offset)): a caller that
-   follows the documented order gets a size computed with res_size := cnv_offset.  True under the side condition that
-   the permutation is harmless. *)
-Lemma suffices_cnv_pairwise_apply_dft_partial (fam n cnv_offset rs a b : Z) :
-  is_fam fam -> 0 <= rs -> 1 <= a -> 1 <= b ->
-  Z.min rs (a + b - 1) <= cnv_offset ->
-  run_takes (t_cnv_pairwise_apply_dft fam rs a b) (0, api_cnv_pairwise_apply_dft_tmp_bytes fam n cnv_offset rs a b) <> None.
-Proof.
-  intros Hf Hrs Ha Hb Hside. unfold t_cnv_pairwise_apply_dft. autounfold with c12gen.
-  destruct Hf as [-> | ->]; cbn [Z.eqb].
-  - unfold take_words. apply single_take; [|lia].
-    match goal with |- ?x / 8 * 8 <= _ => pose proof (take_words_le 8 x ltac:(lia) ltac:(lia)) end. lia.
-  - repeat match goal with |- context [?x =? 0] => destruct (Z.eqb_spec x 0) end; cbn [orb]; apply single_take; lia.
-Qed.
-
-(* called the way the implementation reads it, (res_size, cnv_offset, ..), the size always suffices *)
-Lemma suffices_cnv_pairwise_apply_dft_effective (fam n cnv_offset rs a b : Z) :
-  is_fam fam -> 0 <= rs -> 1 <= a -> 1 <= b ->
+(* cnv_pairwise_apply_dft: the size query takes (res_size, cnv_offset, a_size, b_size) *)
+Lemma suffices_cnv_pairwise_apply_dft (fam n cnv_offset rs a b : Z) :
+  is_fam fam -> 0 <= n -> 0 <= rs -> 1 <= a -> 1 <= b ->
   run_takes (t_cnv_pairwise_apply_dft fam rs a b) (0, api_cnv_pairwise_apply_dft_tmp_bytes fam n rs cnv_offset a b) <> None.
 Proof.
-  intros Hf Hrs Ha Hb. unfold t_cnv_pairwise_apply_dft. autounfold with c12gen.
+  intros Hf Hn Hrs Ha Hb. unfold t_cnv_pairwise_apply_dft. autounfold with c12gen.
   destruct Hf as [-> | ->]; cbn [Z.eqb].
   - apply single_take_words; lia.
   - repeat match goal with |- context [?x =? 0] => destruct (Z.eqb_spec x 0) end; cbn [orb]; apply single_take; lia.
-Qed.
-
-Lemma suffices_cnv_pairwise_apply_dft_refuted :
-  exists fam n cnv_offset rs a b, is_fam fam /\ pow2 n /\ 8 <= n /\ 0 <= rs /\ 1 <= a /\ 1 <= b /\
-  run_takes (t_cnv_pairwise_apply_dft fam rs a b) (0, api_cnv_pairwise_apply_dft_tmp_bytes fam n cnv_offset rs a b) = None.
-Proof.
-  exists 0, 8, 0, 3, 2, 2.
-  split; [left; reflexivity|]. split; [exists 3; split; [lia|reflexivity]|].
-  split; [lia|]. split; [lia|]. split; [lia|]. split; [lia|]. vm_compute; reflexivity.
 Qed.
 
 (* ------------------------------------------------------------------------------------------------ *)
